@@ -100,6 +100,13 @@ CHECKS['C11'] = dict(
          '(3) the loader is fed a parse tree whose 30+ line numbers are distinct symbolic integers, one of 9 faults is injected, and the raised error must carry the line term of the offending command/argument.',
     note='Trusted: z3; A-lex (greedy = longest, checked on witnesses); S-parser stub for the error-line part; CLI marker arithmetic is checked in C13.',
     ref='DESIGN.md §4 C11')
+CHECKS['C13'] = dict(
+    technique='z3 regex lemmas on the live lexer find the lexemes whose token action can fail (witnesses replayed on the real parser); solver-enumerated fault, CSV-content and error-class matrices executed on the real loader, CSV reader and CLI handler with a symbolic line number',
+    text='(a) For 9 classes of risky lexemes (malformed escapes, trailing backslash, non-ASCII, huge integers) z3 decides through the first-match lemma on the live master regex which strings really are single tokens, and the real parser must answer each witness with a tree or SyntaxError; characters no rule matches likewise. '
+         '(b) The complete C12 fault matrix (every command x parameter x value kind) must never let a non-MPilot exception escape. (c) CSV files (0-2 rows x header forms x ragged/blank/3-cell rows x 7 cell forms x read options) run through the real model pipeline. '
+         '(d) Every MPilot error class is built with representative fields and a symbolic line number and pushed through the real CLI handler: str() must not raise, exit status non-zero, message on stderr, the marked line is the error line (z3).',
+    note='Trusted: z3; S-repr contract (which escapes CPython rejects) only steers where witnesses are sought; everything is executed on the real code.',
+    ref='DESIGN.md §3 C13')
 NOT_YET = {}
 ALL = ['C%02d' % i for i in range(1, 21)]
 
